@@ -29,7 +29,8 @@ RULE = ('texts of both grammars, built term by term (coefficient forms: small in
         'U+2029 and spaces inside numbers); an ungrammatical stream obtained by mutating such texts (doubled or '
         'dangling operators, foreign punctuation, balanced brackets, malformed numbers / fractions / exponents, a '
         'second variable, `@`, words like inf/NaN, string literals); edge classes: empty text, degree 2000 / 65535, '
-        'non-finite numbers (>= 300-digit decimals), U+200E/U+200F, non-NFC identifiers.  MEASURED SAFE SUB-LANGUAGE '
+        'numbers beyond the range of f64 (>= 300-digit decimals, overflowing sums and quotients: regression cases of the '
+        'repaired finding F20a — runtime Err AND compile error at the invocation), U+200E/U+200F, non-NFC identifiers.  MEASURED SAFE SUB-LANGUAGE '
         '(texts that rustc 1.95 tokenizes; everything generated is filtered by an emulation of rustc_lexer and any '
         'lexer error in a generated crate fails the check): ASCII digits; identifiers (XID, ASCII or not, keywords '
         'included); + - ^ . / * ! ? ~ % & | ; : , < > = @ $ _; balanced ( ) [ ] { }; complete string literals '
@@ -382,14 +383,17 @@ def mutate(rng, grammar, t):
 SPECIAL = [
     # (grammar, class, text)
     ('simple', 'empty', ''), ('inter', 'empty', ''), ('simple', 'empty', ' '), ('inter', 'empty', '\n'),
-    ('simple', 'nonfinite', '9' * 400 + 'x'),
-    ('simple', 'nonfinite', '1' + '0' * 309 + 'x^2 + 3'),
-    ('simple', 'nonfinite', '2' + '0' * 308 + 'x - 2' + '0' * 308 + 'x + 1'),
-    ('simple', 'nonfinite', '-' + '9' * 310),
-    ('inter', 'nonfinite', '9' * 400 + 'x - ' + '9' * 400 + 'x^2'),
-    ('inter', 'nonfinite', 'x^' + '9' * 400),
-    ('inter', 'nonfinite', '9' * 400 + '/' + '9' * 400 + 'x'),
-    ('inter', 'nonfinite', '3x^' + '9' * 320 + 'x^-' + '9' * 320),
+    ('simple', 'nonfinite-regression', '9' * 400 + 'x'),
+    ('simple', 'nonfinite-regression', '1' + '0' * 309 + 'x^2 + 3'),
+    ('simple', 'nonfinite-regression', '2' + '0' * 308 + 'x - 2' + '0' * 308 + 'x + 1'),
+    ('simple', 'nonfinite-regression', '-' + '9' * 310),
+    ('inter', 'nonfinite-regression', '9' * 400 + 'x - ' + '9' * 400 + 'x^2'),
+    ('inter', 'nonfinite-regression', 'x^' + '9' * 400),
+    ('inter', 'nonfinite-regression', '9' * 400 + '/' + '9' * 400 + 'x'),
+    ('inter', 'nonfinite-regression', '3x^' + '9' * 320 + 'x^-' + '9' * 320),
+    ('simple', 'nonfinite-regression', '1' + '0' * 308 + 'x + 1' + '0' * 308 + 'x'),          # finite terms, infinite sum
+    ('inter', 'nonfinite-regression', 'x^1' + '0' * 308 + 'x^1' + '0' * 308),                 # merged exponents overflow
+    ('inter', 'nonfinite-regression', '1' + '0' * 308 + '/0.' + '0' * 20 + '1y'),             # quotient overflows
     ('inter', 'tiny-denominator', '1/0.' + '0' * 330 + '1x'),
     ('simple', 'huge-finite', '1' + '0' * 308 + 'x'),
     ('simple', 'huge-finite', '0.' + '0' * 330 + '1x + 0.' + '0' * 322 + '49'),
@@ -805,9 +809,6 @@ def judge(case, impl):
 
 def known(case, impl, clause):
     t = case.meta['text']
-    digits = max([len(x) for x in re.findall(r'[0-9]+', re.sub(r'[\s.]', '', t))] or [0])
-    if clause.startswith(ACCEPTS_BUT_ERROR) and case.meta['macro'] == 'unresolved' and digits >= 300:
-        return 'F20a'
     if ('\u200e' in t or '\u200f' in t) and (clause == REJECTS_BUT_COMPILES or clause == R1_BROKEN):
         return 'F20b'
     if unicodedata.normalize('NFC', t) != t and (clause == REJECTS_BUT_COMPILES or clause == R1_BROKEN):
